@@ -268,10 +268,87 @@ def override_history(part, row, seed):
     part.nstates(8)
 
 
+def tolerance_cases(part, row, seed):
+    """
+    the documented bond_tolerance= argument of unit_cell_molecules / symmetry_unique_molecules: a water stretched so that
+    O-H = cov_O + cov_H + 0.55 A is one molecule with bond_tolerance=0.7 (bonded iff d < cov_a + cov_b + tolerance) and three
+    separate atoms with the default 0.4; the ordinary water is three separate atoms with bond_tolerance=-0.2. All contacts
+    between different molecules are kept (by the reference) above cov_a + cov_b + 0.9 A.
+    """
+    sk = "%d:%s" % (row["number"], row["choice"])
+    el = mol.element_data()
+    for centre, orient in (([0.137, 0.289, 0.611], 1), ([0.983, 0.017, 0.611], 2)):
+        case0 = {"number": row["number"], "choice": row["choice"], "zkind": "1", "centre": centre, "orient": orient, "seed": seed, "kind": "tolerance"}
+        ops, cell, asym, imgs = make(row, case0)
+        M = asym["M"]
+        cov = np.array([el[x][1] for x in asym["symbols"]])
+        fr = np.array(asym["frac"])
+        cart = fr @ M
+        want = cov[0] + cov[1] + 0.55
+        cart2 = cart.copy()
+        for h in (1, 2):
+            v = cart[h] - cart[0]
+            cart2[h] = cart[0] + v * (want / np.linalg.norm(v))
+        asym2 = dict(asym, frac=cart2 @ np.linalg.inv(M))
+        imgs2 = mol.images(ops, asym2)
+        # reference precondition for the stretched crystal: distinct images, contacts between molecules > cov+cov+0.9
+        pts = np.vstack([im["frac"] for im in imgs2])
+        own = np.repeat(np.arange(len(imgs2)), 3)
+        cv = np.tile(cov, len(imgs2))
+        ok = True
+        for cellv in itertools.product((-1, 0, 1), repeat=3):
+            d = np.linalg.norm(((pts + np.array(cellv))[:, None, :] - pts[None, :, :]) @ M, axis=2)
+            thr = cv[:, None] + cv[None, :] + 0.9
+            diff_mol = (own[:, None] != own[None, :]) | (any(cellv) and np.ones_like(d, dtype=bool))
+            if np.any((d < thr) & diff_mol):
+                ok = False
+                break
+        if not ok:
+            part.skip("stretched molecules too close")
+            continue
+        for name, frac_used, kw, n_expect, size in (
+            ("stretched:tol0.7", asym2["frac"], {"bond_tolerance": 0.7}, len(imgs2), 3),
+            ("stretched:default", asym2["frac"], {}, 3 * len(imgs2), 1),
+            ("normal:tol-0.2", asym["frac"], {"bond_tolerance": -0.2}, 3 * len(imgs), 1),
+            ("normal:default", asym["frac"], {}, len(imgs), 3),
+        ):
+            part.ev()
+            part.tr()
+            case = dict(case0, variant=name)
+            try:
+                c = xtal.make_crystal(row["number"], row["choice"], cell, asym["symbols"], frac_used)
+                mols = c.unit_cell_molecules(**kw)
+                c2 = xtal.make_crystal(row["number"], row["choice"], cell, asym["symbols"], frac_used)
+                uniq = c2.symmetry_unique_molecules(**kw)
+            except Exception as e:
+                part.fail("tolerance-raise:" + name, "molecules of %s with %s raised %r" % (sk, kw, e), case)
+                continue
+            if len(mols) != n_expect or any(len(m) != size for m in mols):
+                part.fail("bond-tolerance:unit-cell:" + name, "unit_cell_molecules(%s) of %s (%s water): %d molecules of sizes %s, expected %d of %d atoms (bonded iff d < cov+cov+tolerance)"
+                          % (kw, sk, name.split(":")[0], len(mols), sorted({len(m) for m in mols}), n_expect, size), case)
+            if len(uniq) != (1 if size == 3 else 3) or any(len(m) != size for m in uniq):
+                part.fail("bond-tolerance:unique:" + name, "symmetry_unique_molecules(%s) of %s (%s water): %d molecules of sizes %s, expected %d of %d atoms"
+                          % (kw, sk, name.split(":")[0], len(uniq), sorted({len(m) for m in uniq}), 1 if size == 3 else 3, size), case)
+            if size == 3:
+                for m in mols:
+                    P = np.asarray(m.positions)
+                    Z = np.asarray(m.atomic_numbers)
+                    o = int(np.nonzero(Z == 8)[0][0]) if (Z == 8).sum() == 1 else None
+                    if o is None or len(m) != 3:
+                        continue
+                    dd = sorted(np.linalg.norm(P[i] - P[o]) for i in range(3) if i != o)
+                    target = want if name.startswith("stretched") else np.linalg.norm(cart[1] - cart[0])
+                    if abs(dd[0] - target) > 1e-6 or abs(dd[1] - target) > 1e-6:
+                        part.fail("bond-tolerance:not-whole:" + name, "a molecule of %s is not whole: O-H distances %s, expected %.4f" % (sk, np.round(dd, 4), target), case)
+            part.outcome(("tolerance", name, len(mols)))
+    part.nstates(8)
+
+
 def worker(part, job, tier, seed):
     row, full = job
     if full == "override":
         override_history(part, row, seed)
+        tolerance_cases(part, row, seed)
         return
     sk = "%d:%s" % (row["number"], row["choice"])
     n_ok = 0
@@ -307,7 +384,8 @@ def run(ctx):
                 % (list(mol.CENTRES), len(jobs)))
     ctx.bounds = {"settings": len(jobs), "full_grid_settings": sum(1 for j in jobs if j[1]), "centres": list(mol.CENTRES),
                   "zprime_kinds": list(mol.ZPRIME), "contact_margin_A": mol.MARGIN,
-                  "override_histories": "all 8 orders of {default, covalent_radii override} of length 3 in 4 settings"}
+                  "override_histories": "all 8 orders of {default, covalent_radii override} of length 3 in 4 settings",
+                  "bond_tolerance_cases": "stretched / ordinary water x bond_tolerance {0.7, default, -0.2} x 2 placements in the same 4 settings, both entry points"}
     ctx.assumptions = ["covalent radii / masses are read from the library's element table as data; bonding rule d < cov_a+cov_b+0.4 as documented",
                        "cases with any intermolecular contact below bonding threshold + 0.5 A, or a centre of mass within 1e-6 of a cell face, are outside the property's quantifier"]
     ctx.pmap(worker, jobs, tier=ctx.tier, seed=ctx.seed)
@@ -318,6 +396,9 @@ def run(ctx):
 def replay(ctx, case):
     table = symm.load_table()
     for r in table:
+        if case.get("kind") == "tolerance" and r["number"] == case["number"] and r["choice"] == case["choice"]:
+            tolerance_cases(ctx, r, case.get("seed", 0))
+            return
         if case.get("kind") == "override" and r["number"] == case["number"] and r["choice"] == case["choice"]:
             override_history(ctx, r, case.get("seed", 0))
             return
